@@ -71,10 +71,11 @@ MARK = {s: "zq%02dx" % i for i, s in enumerate(SITES)}
 MARK_RE = re.compile(r"zq(\d\d)x", re.I)  # Request.method upper-cases
 
 # ---- description of the tree under test (model constants; see spec/TermSafe/README.md) -----------------------------
-# fields dumper.py puts into an f-string without any escaping
-RAW_SITES = frozenset({"req_version", "resp_version", "ws_path", "ws_server_host", "close_reason", "server_host",
-                       "proto_error_msg", "qname", "ans_txt", "ans_cname", "ans_https"})
-ECC_KEEPS_C1 = True  # strutils.escape_control_characters translates U+0000-1F and U+007F only
+# fields dumper.py puts into an f-string without any escaping: none since /repo c426961fa (before that fix: PREFIX_RAW)
+RAW_SITES = frozenset()
+PREFIX_RAW = frozenset({"req_version", "resp_version", "ws_path", "ws_server_host", "close_reason", "server_host",
+                        "proto_error_msg", "qname", "ans_txt", "ans_cname", "ans_https"})
+ECC_KEEPS_C1 = False  # strutils.escape_control_characters translates C0, DEL and (since /repo a273e7200) C1
 
 KNOWN_ECHO_FUNCTIONS = {"echo", "_echo_headers", "_echo_trailers", "_echo_message", "_echo_request_line",
                         "_echo_response_line", "echo_flow", "websocket_message", "websocket_end", "_proto_error",
@@ -464,13 +465,13 @@ class Check(core.PropertyCheck):
     def model_runs(self, ctx):
         res = [ctx.model_check(self.MODEL, self.model_constants(ctx.tier), dump=True, timeout=900 if ctx.quick else 3000)]
         if not ctx.quick:
-            # design-level result: with every field escaped and C1 translated the model has no reachable violation
-            fixed = dict(self.model_constants("quick"), RawSites=frozenset(), EccKeepsC1=False)
-            r2 = ctx.model_check(self.MODEL, fixed, dump=False, tag="_fixed", timeout=1500)
-            ctx.notes["model_with_all_sites_escaped_reachable_bad"] = r2.bad
-            if r2.bad:
-                raise core.MachineryError(f"the 'everything escaped' instance of the model still violates: {r2.bad}")
-            res.append(r2)
+            # design-level result: the same model instantiated for the tree before the fixes (11 raw echo sites, C1 kept)
+            # reaches the violations that were found there
+            prefix = dict(self.model_constants("quick"), RawSites=PREFIX_RAW, EccKeepsC1=True)
+            r2 = ctx.model_check(self.MODEL, prefix, dump=False, tag="_prefix", timeout=1500)
+            ctx.notes["model_of_prefix_tree_reachable_bad"] = len(r2.bad)
+            if not r2.bad:
+                raise core.MachineryError("the pre-fix instance of the model reaches no violation: model lost its teeth")
         return res
 
     def setup(self, ctx):
